@@ -633,14 +633,35 @@ def corr_keys(ctx, cs):
             # raw private strings
             s = sk.to_string()
             cs.add("sk_to_string", "res_eqb bytes_eqb (sk_to_string %s %s) (Ok %s)" % (q_curve(c), qN(k), qb(s)), (c.name, k))
+            nn, bl = int(c.order), c.baselen
+            edge = [("scalar=%s" % nm, v.to_bytes(bl, "big")) for nm, v in (("1", 1), ("n-1", nn - 1), ("n", nn), ("n+1", nn + 1))
+                    if v < 1 << (8 * bl)]
             for what, m in [("valid", s), ("trunc", s[:-1]), ("ext", s + b"\x00"), ("zero", bytes(len(s))), ("ff", b"\xff" * len(s)),
-                            ("empty", b"")]:
+                            ("empty", b"")] + edge:
                 with Recorder() as rec:
                     res = run(K.SigningKey.from_string, m, c)
                 if rec.unmodelled or not in_enum(res):
                     continue
                 cs.add("sk_from_string/" + what, "res_eqb skey_same (SKS %s %s %s) %s" % (rec.q_mul(), q_cref(c), qb(m), qr(res, q_sk)),
                        (c.name, m), res)
+    # private keys at and beyond the ends of the scalar range, through SEC1 and PKCS#8
+    for c in I.W:
+        nn, bl = int(c.order), c.baselen
+        top = K.SigningKey.from_secret_exponent(nn - 1, c)
+        raw = top.to_string()
+        for fmt in ("ssleay", "pkcs8"):
+            der0 = top.to_der(format=fmt)
+            for nm, v in (("0", 0), ("1", 1), ("n-1", nn - 1), ("n", nn), ("n+1", nn + 1), ("max", (1 << (8 * bl)) - 1)):
+                if v >= 1 << (8 * bl) or raw not in der0:
+                    continue
+                m = der0.replace(raw, v.to_bytes(bl, "big"), 1)
+                with Recorder() as rec:
+                    res = run(K.SigningKey.from_der, m)
+                if rec.unmodelled or not in_enum(res):
+                    ctx.dist["skipped:unmodelled"] += 1
+                    continue
+                cs.add("sk_from_der/scalar=%s" % nm, "res_eqb skey_same (SKD %s %s %s true true) %s" % (
+                    rec.q_sqrt(), rec.q_mul(), qb(m), qr(res, q_sk)), (c.name, fmt, nm), res)
     # bec2format raw format through the plug-in (P-256 only)
     P = I.plugin.PublicEccKeyProxy
     c = Cv.NIST256p
@@ -913,7 +934,7 @@ class Searcher:
         self.per_kind = {}
         self.counts = {}
         scale = 3 if ctx.brokens else 1
-        self.t_end = time.time() + ctx.budget(40, 420) * scale
+        self.t_end = time.time() + ctx.budget(30, 420) * scale
 
     def time_left(self):
         return self.t_end - time.time()
@@ -1232,6 +1253,8 @@ def search(ctx):
                     S.probe(dec, f, pem[:k], "reject", "truncation to %d of %d bytes of %s" % (k, len(pem), label), c.name)
                 plan.append((c, kind, label, dec, f, pem))
         ctx.sample({"curve": c.name, "key": keys[0][0], "spki": keys[0][1].verifying_key.to_der()})
+    # 1b. the ends of the scalar range: 1, 2, n-2, n-1 are keys; 0, n, n+1, 2^bits-1 are not
+    search_scalar_range(S, plan, quick)
     # 2. bec2format through the plug-in (P-256)
     search_plugin(S)
     # 3. structural malformations of named-curve key files (elements deleted / emptied / shortened)
@@ -1247,7 +1270,7 @@ def search(ctx):
                 S.probe(dec, f, m, "any", "structure %s of %s" % (how, label), c.name)
     # 4. every single-byte mutation (xor 01, xor 80, set 00, set FF): named encodings first, then
     #    explicit parameters and PEM, until the time budget is used up
-    ctx.extra["search_fixed_part_s"] = round(time.time() - (S.t_end - ctx.budget(40, 420) * (3 if ctx.brokens else 1)), 1)
+    ctx.extra["search_fixed_part_s"] = round(time.time() - (S.t_end - ctx.budget(30, 420) * (3 if ctx.brokens else 1)), 1)
     order = sorted(range(len(plan)), key=lambda i: (plan[i][2].endswith("/explicit") or plan[i][2].startswith("pem"),
                                                     plan[i][0].name not in HEAVY, r.random()))
     done = 0
@@ -1275,6 +1298,73 @@ def search(ctx):
         "must be rejected with a documented error; single-byte mutations (xor01, xor80, set00, setFF) and structural "
         "malformations must give a documented error or a key; plug-in raw<->DER; OpenSSL both ways in the thorough tier. "
         "non-trivial = non-empty input; distinct by (decoder, input)")
+
+
+def search_scalar_range(S, plan, quick):
+    """every curve: the edge scalars 1, 2, n-2, n-1 round-trip through every private format and their
+    scalar bytes are swept with the single-byte mutations (n-1 -> n is one of them); encodings of the
+    out-of-range scalars 0, n, n+1, 2^bits-1 (raw, SEC1, PKCS#8, PEM) are rejected with a documented error"""
+    I, K, r, ctx = S.I, S.I.keys, S.r, S.ctx
+    for c in I.W:
+        n, bl = int(c.order), c.baselen
+        for k in (1, 2, n - 2, n - 1):
+            kind = "edge-scalar-%s" % ({1: "1", 2: "2", n - 2: "n-2", n - 1: "n-1"}[k])
+            sk = K.SigningKey.from_secret_exponent(k, c)
+            S.cur_sk = sk
+            ctx.dist["key:" + kind] += 1
+            vk = sk.verifying_key
+            x, y = int(vk.pubkey.point.x()), int(vk.pubkey.point.y())
+            raw = sk.to_string()
+            forms = [("privstring", "SigningKey.from_string", (lambda b: K.SigningKey.from_string(b, c)), raw,
+                      k.to_bytes(flen(n), "big"), sk)]
+            combos = [("uncompressed", "named_curve")] if quick else \
+                     [(pe, ce) for pe in ("uncompressed", "compressed", "hybrid") for ce in ("named_curve", "explicit")]
+            for pe, ce in combos:
+                forms.append(("sec1/%s/%s" % (pe, ce), "SigningKey.from_der", K.SigningKey.from_der,
+                              sk.to_der(pe, "ssleay", ce), spec_sec1(c, k, x, y, pe, ce), sk))
+                forms.append(("pkcs8/%s/%s" % (pe, ce), "SigningKey.from_der", K.SigningKey.from_der,
+                              sk.to_der(pe, "pkcs8", ce), spec_pkcs8(c, k, x, y, pe, ce), sk))
+            forms.append(("pem-sec1/uncompressed/named_curve", "SigningKey.from_pem", K.SigningKey.from_pem,
+                          sk.to_pem(), spec_pem(spec_sec1(c, k, x, y, "uncompressed", None), b"EC PRIVATE KEY"), sk))
+            forms.append(("pem-pkcs8/uncompressed/named_curve", "SigningKey.from_pem", K.SigningKey.from_pem,
+                          sk.to_pem(format="pkcs8"), spec_pem(spec_pkcs8(c, k, x, y, "uncompressed", None), b"PRIVATE KEY"), sk))
+            for label, dec, f, enc, want, key in forms:
+                S.roundtrip_and_bytes(c, kind, label, dec, f, enc, want, key)
+                if label.startswith("pem"):
+                    continue
+                # single-byte mutations of the scalar bytes inside this encoding
+                off = enc.find(raw)
+                if off < 0:
+                    S.fail("encoding-bytes:%s" % label.split("/")[0], {"curve": c.name, "key": kind, "encoding": label, "got": enc},
+                           "the fixed-width scalar is not contained in the encoding")
+                    continue
+                idx = range(bl) if (not quick or (k == n - 1 and label == "privstring")) else sorted({0, 1, bl - 2, bl - 1})
+                for i in idx:
+                    for name, v in (("xor01", raw[i] ^ 1), ("xor80", raw[i] ^ 0x80), ("set00", 0), ("setFF", 0xFF)):
+                        if v != raw[i]:
+                            j = off + i
+                            S.probe(dec, f, enc[:j] + bytes([v]) + enc[j + 1:], "any",
+                                    "mutation %s at %d of %s (scalar byte %d of the %s key)" % (name, j, label, i, kind), c.name)
+                if not quick and k == n - 1:
+                    plan.append((c, kind, label, dec, f, enc))
+            if k != n - 1:
+                continue
+            # out-of-range scalars, written into the encodings of the key n-1 (public key part unchanged)
+            bad_values = [0, n] + ([n + 1] if n + 1 < 1 << (8 * bl) else []) + [(1 << (8 * bl)) - 1, (1 << n.bit_length()) - 1]
+            for bad in sorted(set(bad_values)):
+                if 1 <= bad < n:
+                    continue
+                what = {0: "0", n: "n", n + 1: "n+1"}.get(bad, "2^%d-1" % bad.bit_length())
+                braw = bad.to_bytes(bl, "big")
+                for label, dec, f, enc, want, key in forms:
+                    if label.startswith("pem"):
+                        body = spec_sec1(c, n - 1, x, y, "uncompressed", None) if "sec1" in label else spec_pkcs8(c, n - 1, x, y, "uncompressed", None)
+                        if raw not in body:
+                            continue
+                        m = spec_pem(body.replace(raw, braw, 1), b"EC PRIVATE KEY" if "sec1" in label else b"PRIVATE KEY")
+                    else:
+                        m = enc.replace(raw, braw, 1)
+                    S.probe(dec, f, m, "reject", "out-of-range-scalar %s in %s" % (what, label), c.name)
 
 
 def search_plugin(S):
